@@ -254,6 +254,14 @@ Proof.
   destruct oe as [e|]; cbn [app] in H; exact H.
 Qed.
 
+(* and no spurious failure: on a transport that never fails every operation succeeds and the peer
+   has the whole wire *)
+Theorem c08_rtmp_write_no_fault hs ms m term :
+  let '(n, oe, w) := rtmp_write_session hs ms (wtr_new None m term) in
+  oe = None /\ n = N.of_nat (length (rtmp_wops hs ms)) /\
+  wt_received w = concat (concat (rtmp_wops hs ms)).
+Proof. exact (rtmp_write_session_no_fault hs ms m term). Qed.
+
 (* the same for any sequence of operations through a bufio.Writer (pieces of any content),
    starting from a writer with nothing buffered on an intact transport *)
 Theorem c08_bufio_write_ops ops b n : clean b -> bw_buf b = [] ->
@@ -289,4 +297,5 @@ Print Assumptions c08_plan_inside.
 Print Assumptions c08_rtmp_read_always_error.
 Print Assumptions c08_rtmp_read_cut.
 Print Assumptions c08_rtmp_write_partial.
+Print Assumptions c08_rtmp_write_no_fault.
 Print Assumptions c08_bufio_write_ops.
